@@ -197,7 +197,7 @@ def main(run):
         run.violation({"kind": "correspondence-broken", "correspondence": "L1:C05:matchType vs Model/MapVal.match_type",
                        "call": m}, no_input=True)
     run.replay_findings(finding_handlers(run, shoot))
-    npairs = 400 if run.thorough() else 56
+    npairs = 900 if run.thorough() else 56
     nsets = 4 if run.thorough() else 3
     pairs, verdicts, guards = stream(run, shoot, npairs, nsets, "c05")
     nviol = report(run, pairs, verdicts, guards,
